@@ -42,12 +42,15 @@ try:
         pkg = re.search(r'^package (\w+)', text, re.M).group(1)
         pkgdir = {'soy': '.', 'soy_test': '.', 'pomsg': 'soymsg/pomsg', 'pomsg_test': 'soymsg/pomsg'}.get(pkg, pkg.replace('_test', ''))
         tests = re.findall(r'^func (Test\w+)\(', text, re.M)
+        os.makedirs(os.path.join(wt, pkgdir), exist_ok=True)
         dst = os.path.join(wt, pkgdir, f'zz_demo{K}_test.go')
         shutil.copy(demo, dst)
         runre = '^(' + '|'.join(tests) + ')$'
         rc1, o1 = sh(f"go test -vet=off -count=1 -run '{runre}' ./{pkgdir}", cwd=wt)
         res['demo_fails_with_change'] = rc1 != 0
         sh('git checkout -- .', cwd=wt)
+        if not os.path.exists(dst):
+            os.makedirs(os.path.dirname(dst), exist_ok=True); shutil.copy(demo, dst)
         rc2, o2 = sh(f"go test -vet=off -count=1 -run '{runre}' ./{pkgdir}", cwd=wt)
         res['demo_passes_without_change'] = rc2 == 0
         if rc2 != 0: res['demo_clean_output'] = o2[-600:]
